@@ -9,6 +9,8 @@ pub(crate) enum Who {
 }
 
 pub(crate) fn log_message_received(from: Who, message: &Message) {
+    #[cfg(feature = "verif_hooks")]
+    crate::verif::tap(matches!(from, Who::Server), message);
     match message {
         Message::EntitySpawn { id } => debug!("{:?} received EntitySpawn {{ id: {} }}", from, id),
         Message::EntityParented {
